@@ -121,8 +121,9 @@ class AckFamily:
                 if e['retry'] == 0 and i not in M:
                     if e.get('stored') is not True:
                         out.append(V('C09', 'not-stored-before-handler', store, f"message {e['type']}/{e['state']}/{e['key']} was not readable from the store when its handler ran", scenario=sid))
-                    acted = any(a['ok'] and a['pid'] == e['pid'] and a['tid'] == e['tid'] and a['call'] < e['seq'] for a in h.actions)
-                    M[i] = {'seen': {(0, 0)}, 'epoch': 0, 'maybe_completed': True, 'first_seq': e['seq'], 'status': 'created', 'retry': 0, 'last': e['now'], 'content': content(e), 'tid': e['tid'], 'pid': e['pid'], 'desc': f"{e['type']}/{e['state']}/{e['key']}"}
+                    acting = [a['seq'] for a in h.actions if a['ok'] and a['pid'] == e['pid'] and a['tid'] == e['tid'] and a['call'] < e['seq']]
+                    acted = bool(acting)
+                    M[i] = {'seen': {(0, 0)}, 'epoch': 0, 'maybe_completed': True, 'maybe_until': max(acting) if acting else 0, 'first_seq': e['seq'], 'status': 'created', 'retry': 0, 'last': e['now'], 'content': content(e), 'tid': e['tid'], 'pid': e['pid'], 'desc': f"{e['type']}/{e['state']}/{e['key']}"}
                     if not acted:
                         M[i].pop('maybe_completed')
                     continue
@@ -134,7 +135,8 @@ class AckFamily:
                 x = M[i]
                 w = window_of(e['seq'])
                 obs['c09.redeliveries'] += 1
-                x.pop('maybe_completed', None)
+                if e.get('emit_seq', e['seq']) > x.get('maybe_until', 0):
+                    x.pop('maybe_completed', None)      # redelivered after the closing action had returned: it did not close this row
                 if x['status'] != 'created' and e.get('emit_seq', e['seq']) < x.get('status_seq', 0):
                     obs['c09.redeliveries-emitted-before-the-status-change'] += 1
                     continue
@@ -177,6 +179,7 @@ class AckFamily:
                             # first delivered while the action was in progress: its row may or may not have existed
                             # when the action closed the messages of this task
                             x['maybe_completed'] = True
+                            x['maybe_until'] = max(x.get('maybe_until', 0), e['seq'])
                         else:
                             if x['status'] == 'acked':
                                 x['closed_twice'] = True
